@@ -1,16 +1,28 @@
 #!/bin/sh
 # usage: tryseed.sh <seed-dir-name> <prop> [tier] [extra gosym args]
-# applies seeded/<name>/patch.diff to /repo, runs the check, reverts.
+# applies seeded/<name>/patch.diff to a scratch worktree of /repo (HEAD), runs the
+# property's check against that tree (ZZ_REPO), removes the worktree.  /repo itself
+# and /verif/evidence are not touched.
 name=$1; prop=$2; tier=${3:-quick}; shift; shift; [ $# -gt 0 ] && shift
-cd /repo || exit 2
-git diff --quiet || { echo "repo dirty"; exit 2; }
-git apply /verif/seeded/$name/patch.diff || { echo "patch does not apply"; exit 2; }
+wt=/tmp/seedrun-$name
+git -C /repo worktree remove --force $wt 2>/dev/null
+git -C /repo worktree add -q $wt HEAD || exit 2
+( cd $wt && git apply /verif/seeded/$name/patch.diff ) || { echo "patch does not apply"; git -C /repo worktree remove --force $wt; exit 2; }
 cd /verif
 start=$(date +%s)
-./check $prop $tier "$@" > /tmp/tryseed-$name.log 2>&1
+ZZ_REPO=$wt ZZ_EVIDENCE_DIR=/tmp/seedrun-evidence ZZ_REPLAY_DIR=/tmp/seedrun-replays ./check $prop $tier "$@" > /tmp/tryseed-$name.log 2>&1
 code=$?
 end=$(date +%s)
-git -C /repo checkout -- .
-git -C /repo status --short | grep -v '^??' 
+git -C /repo worktree remove --force $wt
 echo "seed=$name prop=$prop tier=$tier exit=$code wall=$((end-start))s"
-grep -E "^(VIOLATION|KNOWN-FINDING|INCONCLUSIVE|OK)" /tmp/tryseed-$name.log | cut -c1-260 | head -8
+grep -E "^(VIOLATION|KNOWN-FINDING|INCONCLUSIVE|OK)" /tmp/tryseed-$name.log | cut -c1-200 | head -6
+python3 - "$name" "$prop" "$tier" "$code" <<'PY'
+import json,sys,re
+name,prop,tier,code=sys.argv[1:5]
+p='/verif/seeded/%s/meta.json'%name
+m=json.load(open(p))
+log=open('/tmp/tryseed-%s.log'%name).read()
+hs=sorted(set(re.findall(r"harness=(ZZ_\w+)",log)))
+m.setdefault('framework_runs',{})[prop+':'+tier]={'exit':int(code),'detected':code=='1','harnesses_reporting':hs}
+json.dump(m,open(p,'w'),indent=1)
+PY
